@@ -23,6 +23,8 @@ CLAIMED = {
          "Level `other`: the engines (table-driven PLY code) are not under contract, so 'parsing returns exactly ...' end to end rests on the assumed LEX/YACC contracts plus the bounded stand-in. One known finding (unquoted text ending in a number token is rejected) is listed in known_findings.json."),
  "C11": ("other", "proved: t_newline/t_STRING advance lineno by exactly the line breaks consumed, no other rule consumes a line break (L-NL lemmas), count_line_breaks, Parser.parse resets lineno before every parse, every node-building action stores p.lineno(1), exception classes and the parameter cleaners report the line they were given; B-LINES: real parses with CRLF, comments, multi-line arguments and repeated parses on one Parser (bounded)",
          "Level `other`: the step from token lines to p.lineno(k) is the assumed YACC contract. Line threading through from_source/add_command and the CLI window are added under C12/C13 when those are registered."),
+ "C15": ("other", "contracts of the serialisers nested in Program.to_string verified by symbolic execution against the canonical renderer (strings quoted and escaped, references bare / by result name, integers, floats with a decimal point in exponent form), regular-language lemmas that every written number / string is an INT / FLOAT / STRING lexeme of the extracted lexer; bounded round trip from_source(to_string(P)) on the real code for API- and source-built programs",
+         "Level `other`: the load-back step is C10 (assumed PLY engines), join/format over whole commands is not put under contract (only the value level is), unescape(escape(s)) = s is an assumed fact about unicode_escape."),
  "C16": ("other", "TABLE: every entry of the extracted EEMS_COMMANDS literal names a command class of the EEMS libraries (exhaustive; two entries are a recorded known finding); contracts of convert_eems2_commands and its nested find_argument verified by symbolic execution: find_argument = value of the first argument with that name else None (loop invariant), each appended node has result name = own name / NewFieldName / InFieldName in that order, command mapped through the table, NewFieldName/OutFileName arguments dropped in order, line kept, one node per parsed node; bounded: Program.from_source of v2 texts vs their v3 transcriptions on the real loader",
          "Level `other` because two table obligations are not discharged (known finding: ScoreRangeBenefit/ScoreRangeCost do not exist) and the v2 syntax step rests on C10's assumed PLY engines."),
  "C19": ("other", "expression-level contracts proved by SMT (strings): the registry-selection predicate of Program.__init__ equals the statement's `requested library or its sub-module`; duplicate detection per command name among the selected entries; command_library = name -> class over exactly the selected entries; CommandMeta.__new__ registers iff no entry with the same (module, command name) exists and the registry is monotone. load_commands / the import system / Counter are assumed; a bounded history battery (generated packages with prefix-related names, earlier Program constructions and run-time class definitions, compared with a fresh interpreter) runs on the real code",
